@@ -568,7 +568,9 @@ func (f *Formatter) formatReturnStatement(stmt *ast.ReturnStatement) string {
 			suffix = ")"
 		}
 		buf.WriteString(prefix)
-		buf.WriteString(stmt.ReturnExpression.String())
+		// Print through the expression formatter: ast String() is a debug rendering
+		// that drops infix operators and re-encodes literals.
+		buf.WriteString(f.formatExpression(stmt.ReturnExpression).String())
 		buf.WriteString(suffix)
 		if v := f.formatComment(stmt.ParenthesisTrailingComments, "", 0); v != "" {
 			buf.WriteString(" " + v)
